@@ -59,7 +59,7 @@ func (e evRec) OnMesg(m proto.Message) {
 	if m.Header&proto.MesgCompressedHeaderMask != 0 && len(m.Fields) > 0 {
 		ts = fmt.Sprint(m.Fields[0].Value.Uint32())
 	}
-	fmt.Fprintf(e.sb, " R%d.%d.%s.%d", m.Header, m.Num, ts, len(m.Fields))
+	fmt.Fprintf(e.sb, " R%d.%d.%s.%d.%d", m.Header, m.Num, ts, len(m.Fields), len(m.DeveloperFields))
 }
 
 // decw chk=<0|1> <hex>: `for dec.Next() { dec.Decode() }` with component expansion off; events from the
@@ -198,6 +198,20 @@ func genDecW(emit func(string), tier string, rng *Rng) {
 			}
 			emitB(rng.Intn(2), m)
 			count("mutated")
+		}
+	}
+	// hand-built developer-data streams (wire_dev.go) and their mutations
+	for i := 0; i < min(n/2, 8000); i++ {
+		b := devwStream(rng)
+		emitB(rng.Intn(2), b)
+		count("devstream")
+		if rng.Intn(3) == 0 {
+			emitB(0, mutate(rng, b))
+			count("devstream-mutated")
+		}
+		if rng.Intn(6) == 0 { // two sequences in a chain: the descriptions of the first must not reach the second
+			emitB(rng.Intn(2), append(append([]byte{}, b...), devwStream(rng)...))
+			count("devstream-chain")
 		}
 	}
 	// arbitrary bytes behind a plausible header
